@@ -72,6 +72,8 @@ type grpScenario struct {
 	DClose    bool              `json:"dclose"`   // every group is closed a second time after Close returned
 	NoNet     bool              `json:"nonet"`    // never end a call by the safety-net context cancel
 	DFKind    string            `json:"dfkind"`   // how the start of a claim is failed: notleader (default) | conn
+	RRetry       *int           `json:"rretry"`       // Consumer.Group.Rebalance.Retry.Max (default 2)
+	ORetry       *int           `json:"oretry"`       // Consumer.Offsets.Retry.Max (default 3)
 	Leaderless   *int           `json:"leaderless"`   // this partition is listed by the metadata with ErrLeaderNotAvailable (leader -1)
 	LookupFail   bool           `json:"lookupfail"`   // once the coordinator is down, coordinator lookups are answered with an error too
 	ReturnErrors bool           `json:"returnerrors"` // Consumer.Return.Errors
@@ -1132,6 +1134,13 @@ loop:
 	return nil
 }
 
+func grpORetry(sc *grpScenario) int {
+	if sc.ORetry == nil {
+		return 3
+	}
+	return *sc.ORetry
+}
+
 func grpLeaderless(sc *grpScenario) int {
 	if sc.Leaderless == nil {
 		return -1
@@ -1160,11 +1169,14 @@ func grpConfig(sc *grpScenario, name string) *Config {
 	if sc.Auto != "fast" {
 		conf.Consumer.Offsets.AutoCommit.Interval = time.Hour
 	}
-	conf.Consumer.Offsets.Retry.Max = 3
+	conf.Consumer.Offsets.Retry.Max = grpORetry(sc)
 	conf.Consumer.Group.Session.Timeout = time.Second
 	conf.Consumer.Group.Heartbeat.Interval = 20 * time.Millisecond
 	conf.Consumer.Group.Rebalance.Timeout = 2 * time.Second
 	conf.Consumer.Group.Rebalance.Retry.Max = 2
+	if sc.RRetry != nil {
+		conf.Consumer.Group.Rebalance.Retry.Max = *sc.RRetry
+	}
 	conf.Consumer.Group.Rebalance.Retry.Backoff = 5 * time.Millisecond
 	conf.Consumer.Group.Rebalance.Strategy = grpStrategy(sc.Strategy)
 	conf.Consumer.MaxWaitTime = 20 * time.Millisecond
@@ -1391,7 +1403,7 @@ func grpRunScenario(t *testing.T, rec *vRec, sc *grpScenario) (out grpOutcome, e
 	}
 	rec.Reset(kv{"id": sc.ID, "fam": sc.Fam, "members": len(sc.Clients), "np": sc.NP, "loglen": sc.LogLen, "logstart": sc.LogStart,
 		"initial": sc.Initial, "auto": sc.Auto, "hbretry": grpHbRetry, "strategy": sc.Strategy, "committed": committed,
-		"refresh0": sc.Refresh0, "leaderless": grpLeaderless(sc)})
+		"refresh0": sc.Refresh0, "leaderless": grpLeaderless(sc), "oretry": grpORetry(sc)})
 	for _, c := range run.clients {
 		go c.drive()
 	}
